@@ -541,7 +541,8 @@ type c01Env struct {
 	deleted  []string // names of deleted groups (may be re-created)
 	// failf reports a violation found while issuing an operation: c.Fail on the case's main
 	// goroutine, c.Report on any other goroutine (a panic could not be caught there).
-	failf func(sig, format string, a ...any)
+	failf    func(sig, format string, a ...any)
+	needHeal bool
 }
 
 func (e *c01Env) newManager() *GroupQuotaManager {
@@ -676,6 +677,46 @@ type c01Detach struct {
 	x         string
 	ancestors map[string]bool // x's ancestors BEFORE the operation (incl. root)
 	limited   bool            // x's request exceeded x's max in some dimension before the operation
+	// facts for the concurrent unit, where x's request at the instant of the operation is not known
+	// to the harness: x's max and subtree when the operation was issued, and the sum of the mins of
+	// the non-lending groups of that subtree. "possibly max-limited" = the largest requests the pods
+	// that were in the subtree at some time of the round ever had, plus minSum, exceed maxAtOp.
+	maxAtOp c01Vec
+	subtree map[string]bool
+	minSum  c01Vec
+}
+
+// c01PodAt records that a pod was held by a group with a request at some time of a round.
+type c01PodAt struct {
+	slot  int
+	group string
+	req   c01Vec
+}
+
+func (d *c01Detach) possiblyLimited(nd int, recs []c01PodAt) bool {
+	perSlot := map[int]c01Vec{}
+	for _, r := range recs {
+		if !d.subtree[r.group] {
+			continue
+		}
+		v := perSlot[r.slot]
+		for i := 0; i < nd; i++ {
+			if r.req[i] > v[i] {
+				v[i] = r.req[i]
+			}
+		}
+		perSlot[r.slot] = v
+	}
+	bound := d.minSum
+	for _, v := range perSlot {
+		bound = bound.add(v)
+	}
+	for i := 0; i < nd; i++ {
+		if bound[i] > d.maxAtOp[i] {
+			return true
+		}
+	}
+	return false
 }
 
 const c01SigDetach = "C01/request/old-ancestor-after-detaching-max-limited-child"
@@ -685,24 +726,26 @@ type c01Ctx struct {
 	where        string
 	detach       []*c01Detach
 	staleMigrate map[string]bool // groups (and their ancestors) touched by a MigratePod whose cached pod object was stale
+	staleAll     bool            // such a MigratePod ran concurrently with re-parents: any group may be on its path
 }
 
 const c01SigStaleMigrate = "C01/migrate/pod-updated-since-cached"
 
-func (e *c01Env) sig(ctx *c01Ctx, group, field, kind string) string {
-	if ctx != nil && kind == "mismatch" {
-		if field == "request" || field == "child-request" {
-			for _, d := range ctx.detach {
-				if d.limited && d.ancestors[group] {
-					return c01SigDetach
-				}
+// classify attributes one mismatch (reported != recomputed) to the facts in ctx. detach: the
+// known re-parent/delete defect can only make an old ancestor's request/child-request too SMALL;
+// stale: the group lies on the path of a MigratePod that booked a stale cached pod object.
+func (e *c01Env) classify(ctx *c01Ctx, group, field string, less bool) (detach, stale bool) {
+	if ctx == nil {
+		return false, false
+	}
+	if less && (field == "request" || field == "child-request") {
+		for _, d := range ctx.detach {
+			if d.limited && d.ancestors[group] {
+				detach = true
 			}
 		}
-		if ctx.staleMigrate[group] {
-			return c01SigStaleMigrate
-		}
 	}
-	return "C01/" + field + "/" + kind
+	return detach, ctx.staleAll || ctx.staleMigrate[group]
 }
 
 func (e *c01Env) summaries(gqm *GroupQuotaManager) map[string]*QuotaInfoSummary {
@@ -732,6 +775,9 @@ func (e *c01Env) check(ctx *c01Ctx) {
 			c.Fail("C01/groups/unexpected", "%s: the manager reports group %q which does not exist (surviving groups: %v)", where, n, names)
 		}
 	}
+	// mismatches explained by a fact in ctx are collected; an unexplained one fails at once and a
+	// mismatch explained only by the stale-migrate fact wins over one explained by the detach fact
+	staleMsg, detachMsg := "", ""
 	for _, n := range names {
 		s := sums[n]
 		if s == nil {
@@ -756,9 +802,22 @@ func (e *c01Env) check(ctx *c01Ctx) {
 					c.Fail("C01/"+f.name+"/negative", "%s: group %s %s[%s] = %s is negative", where, n, f.name, c01DimNames[d], q.String())
 				}
 				w := c01Q(d, want[d])
-				if q.Cmp(w) != 0 {
-					c.Fail(e.sig(ctx, n, f.name, "mismatch"), "%s: group %s %s[%s] = %s, recomputed from the surviving pods and quotas: %s\n  reported %s: %s\n  expected %s: %s",
+				if cmp := q.Cmp(w); cmp != 0 {
+					msg := fmt.Sprintf("%s: group %s %s[%s] = %s, recomputed from the surviving pods and quotas: %s\n  reported %s: %s\n  expected %s: %s",
 						where, n, f.name, c01DimNames[d], q.String(), w.String(), f.name, c01RL(got), f.name, c01VecStr(want, m.nd))
+					det, stale := e.classify(ctx, n, f.name, cmp < 0)
+					switch {
+					case !det && !stale:
+						c.Fail("C01/"+f.name+"/mismatch", "%s", msg)
+					case stale && !det:
+						if staleMsg == "" {
+							staleMsg = msg
+						}
+					default:
+						if detachMsg == "" {
+							detachMsg = msg
+						}
+					}
 				}
 			}
 			for name, q := range got {
@@ -820,6 +879,68 @@ func (e *c01Env) check(ctx *c01Ctx) {
 		}
 	}
 	c.Count("summary_comparisons", 1)
+	if staleMsg != "" {
+		e.knownDefect(c01SigStaleMigrate, staleMsg)
+	} else if detachMsg != "" {
+		e.knownDefect(c01SigDetach, detachMsg)
+	}
+}
+
+// knownDefect reports a violation that carries one of the two narrow signatures and asks for the
+// manager to be replaced (heal) so that the rest of the history is still monitored: while these
+// defects are open almost every long history runs into one of them, and ending the case there
+// would leave every other oracle without evidence. Any other violation ends the case (c.Fail).
+func (e *c01Env) knownDefect(sig, msg string) {
+	e.c.Report(sig, "%s", msg)
+	e.c.Count("violations_with_narrow_signature", 1)
+	e.needHeal = true
+}
+
+// heal replaces the drifted manager by a fresh one fed the surviving objects; the oracle must
+// hold on it (no context: every mismatch is then an unexplained one).
+func (e *c01Env) heal(where string) {
+	if !e.needHeal {
+		return
+	}
+	e.needHeal = false
+	e.gqm = e.buildFresh()
+	names := make([]string, 0, len(e.nodes))
+	for n := range e.nodes {
+		names = append(names, n)
+	}
+	sort.Strings(names)
+	for _, n := range names {
+		e.gqm.OnNodeAdd(e.nodes[n])
+	}
+	e.c.Op("[harness] %s: violation reported; the manager is replaced by a fresh one fed the surviving quotas and pods", where)
+	e.c.Count("manager_replaced_after_reported_violation", 1)
+	e.check(&c01Ctx{where: where + " (fresh manager after a reported violation)"})
+}
+
+// buildFresh feeds a new manager the surviving quotas (parents first) and pods.
+func (e *c01Env) buildFresh() *GroupQuotaManager {
+	c, m := e.c, e.m
+	fresh := e.newManager()
+	names := m.groupNames()
+	sort.SliceStable(names, func(i, j int) bool { return m.depth(names[i]) < m.depth(names[j]) })
+	for _, n := range names {
+		if err := fresh.UpdateQuota(m.groups[n].object(m.nd)); err != nil {
+			c.Harness("fresh manager refused quota %s: %v", n, err)
+		}
+	}
+	for _, p := range m.pods {
+		if !p.inMgr {
+			continue
+		}
+		fresh.OnPodAdd(p.group, p.cur)
+		if p.asg && !(p.node != "" && !p.term) {
+			fresh.ReservePod(p.group, p.cur) // assigned by reserve, or assigned before it terminated
+		}
+		if !p.asg && p.node != "" && !p.term {
+			c.Harness("model: pod %s has a node, is not terminated and is not assigned", p)
+		}
+	}
+	return fresh
 }
 
 func c01RL(rl v1.ResourceList) string {
@@ -894,27 +1015,8 @@ func (e *c01Env) sameSummaries(kind, where string, a, b map[string]*QuotaInfoSum
 // differential: (1) a fresh manager fed the surviving quotas (parents first) and pods reports the
 // same summaries as the live one; (2) ResetQuota on the live manager changes no figure.
 func (e *c01Env) differential(where string) {
-	c, m := e.c, e.m
-	fresh := e.newManager()
-	names := m.groupNames()
-	sort.SliceStable(names, func(i, j int) bool { return m.depth(names[i]) < m.depth(names[j]) })
-	for _, n := range names {
-		if err := fresh.UpdateQuota(m.groups[n].object(m.nd)); err != nil {
-			c.Harness("fresh manager refused quota %s: %v", n, err)
-		}
-	}
-	for _, p := range m.pods {
-		if !p.inMgr {
-			continue
-		}
-		fresh.OnPodAdd(p.group, p.cur)
-		if p.asg && !(p.node != "" && !p.term) {
-			fresh.ReservePod(p.group, p.cur) // assigned by reserve, or assigned before it terminated
-		}
-		if !p.asg && p.node != "" && !p.term {
-			c.Harness("model: pod %s has a node, is not terminated and is not assigned", p)
-		}
-	}
+	c := e.c
+	fresh := e.buildFresh()
 	live := e.summaries(e.gqm)
 	e.sameSummaries("fresh-manager-differs", where, live, e.summaries(fresh), "the live manager", "a fresh manager fed the surviving objects")
 	c.Count("fresh_manager_differentials", 1)
@@ -923,4 +1025,5 @@ func (e *c01Env) differential(where string) {
 	e.sameSummaries("changed-by-reset", where, live, e.summaries(e.gqm), "the manager before ResetQuota", "the manager after ResetQuota")
 	c.Count("reset_noop_checks", 1)
 	e.check(&c01Ctx{where: where + " (after ResetQuota)"})
+	e.heal(where)
 }
